@@ -220,4 +220,24 @@ CHECKS = {
    note=('Trusted: Coq kernel+vm_compute; hand model tied by '
          'sampled/exhaustive correspondence; string->BDD (add_expr) and the '
          'meaning of the fixed label alphabet; dd. No axioms.')),
+ 'C15': dict(
+   design_ref='§6 C15',
+   technique='Coq proof over a hand-written Gallina model of past.py (tie H) + exhaustive-trace correspondence evaluated in Coq + Python tester solver on finite and ultimately periodic sequences',
+   text=('Model of Nodes.*.flatten/_flatten_previous/_flatten_since/'
+         '_flatten_until/translate (dict-overwrite testers, _aux numbering, '
+         'repaired code). Proved for all Boolean past formulas, both until '
+         'flags, all sequences and lengths, under "user variables are not '
+         'generated names": the testers have exactly one solution and under '
+         'it the translated formula equals the anchored past semantics at '
+         'every position; generated names never collide. until=True over '
+         'infinite sequences with fairness: uniqueness and correctness of '
+         'every fair solution proved; existence for arbitrary sequences only '
+         'under decidability (partial). Old code refuted (F5, F10) as '
+         'regression Examples. Real translate+parser output compared with the '
+         'model on all sequences of length 4/5 inside Coq and solved '
+         'independently in Python.'),
+   note=('Trusted: Coq kernel+vm_compute; strings modelled by the trees the '
+         'real parser returns (PLY/astutils outside the model); conj by '
+         'meaning; translate(debug=True), map_translate not modelled; '
+         'formulas are a sample (sequences exhaustive). No axioms.')),
 }
